@@ -129,7 +129,13 @@ func TestC10(t *testing.T) {
 
 func runC10(rec *vk.Rec, ci, rep int) {
 	r := vk.NewRand(vk.Seed(), "C10", ci)
-	b, err := brokerlab.NewBroker(brokerlab.Opts{})
+	// a quarter of the runs limit the per-connection read rate to a few packets per second, so that the publishers are
+	// throttled by the broker (the limiter makes the connection goroutine pause; nothing may be lost for that)
+	readRate := 0
+	if ci%4 == 3 {
+		readRate = []int{20, 50, 200}[r.Intn(3)]
+	}
+	b, err := brokerlab.NewBroker(brokerlab.Opts{ReadRate: readRate})
 	if err != nil {
 		rec.Inconclusive(err.Error())
 		return
@@ -140,6 +146,13 @@ func runC10(rec *vk.Rec, ci, rep int) {
 	nsub := r.Range(2, 6)
 	npub := r.Range(2, 8)
 	perPub := vk.N(250, 2500)
+	if readRate > 0 {
+		perPub = readRate * 2
+		if perPub > 150 {
+			perPub = 150
+		}
+		rec.Inc("runs_with_read_rate_limit")
+	}
 	var subs []*c10Sub
 	queueing := false
 	var hookCtr uint32
@@ -211,7 +224,7 @@ func runC10(rec *vk.Rec, ci, rep int) {
 	var plans []pubPlan
 	sent := map[string]int{} // pub|chan -> n
 	var sentMu sync.Mutex
-	var perr atomic.Value
+	var perr, dropped atomic.Value
 	for p := 0; p < npub; p++ {
 		pl := pubPlan{name: fmt.Sprintf("p%d", p)}
 		k := r.Range(1, 3)
@@ -277,13 +290,51 @@ func runC10(rec *vk.Rec, ci, rep int) {
 				c.Send(mqttref.Publish(id, key+"/"+ch, []byte(payload), 1, false))
 				total++
 				inflight = total - acked
+				if readRate > 0 {
+					continue // throttled runs: no window, the end barrier below decides
+				}
 				if inflight >= 8 || pr.Chance(10) {
 					if !readAcks(total - pr.Intn(4)) {
 						return
 					}
 				}
 			}
-			if !readAcks(total) {
+			if readRate > 0 {
+				// End barrier that does not depend on every PUBACK arriving: the connection goroutine serves packets in order
+				// and writes the PUBACK of a publish while it handles it, so once the PINGRESP of a PINGREQ sent after the last
+				// publish has been read, every publish has been handled - one that is still unacknowledged then was dropped.
+				// (The pause lets the read limiter refill; it decides nothing.)
+				time.Sleep(1300 * time.Millisecond)
+				c.Send(mqttref.Pingreq())
+				pong := false
+				for !pong {
+					raw := c.C.TakeAll()
+					pk, rest, err := mqttref.Split(append(c.Pending, raw...))
+					c.Pending = append([]byte(nil), rest...)
+					if err != nil {
+						perr.Store("publisher stream: " + err.Error())
+						return
+					}
+					for _, p := range pk {
+						switch p[0] >> 4 {
+						case 4:
+							acked++
+						case 13:
+							pong = true
+						}
+					}
+					if pong {
+						break
+					}
+					if _, eof, to := c.C.WaitData(120 * time.Second); eof || to {
+						perr.Store("publisher: watchdog waiting for PINGRESP")
+						return
+					}
+				}
+				if acked < total {
+					dropped.Store(fmt.Sprintf("publisher %s (read rate limited to %d packets/s): %d QoS-1 publishes sent, the PINGRESP of a PINGREQ sent after the last one has been read, but only %d PUBACKs arrived: %d publishes were dropped by the broker", pl.name, readRate, total, acked, total-acked))
+				}
+			} else if !readAcks(total) {
 				return
 			}
 			sentMu.Lock()
@@ -326,6 +377,10 @@ func runC10(rec *vk.Rec, ci, rep int) {
 	wg.Wait()
 	close(stop)
 	cwg.Wait()
+	if d := dropped.Load(); d != nil {
+		rec.Violation(ci, "publish-dropped/read-rate-limited", d.(string), map[string]interface{}{"read_rate": readRate, "publishers": npub})
+		return
+	}
 	if e := perr.Load(); e != nil {
 		rec.Inconclusive(e.(string))
 		return
